@@ -192,6 +192,9 @@ def corpus():
     cs += [mk(["chain", [wmed, ["moment"]]], [es, ns], [d1], [w1], q, "corpus-weights-into-unweighted-reduction"),
            mk(["chain", [["trend", 1], ["chain", [wmed, ["trend", 0]]]]], [es, ns], [d1], [w1], q, "corpus-weights-into-unweighted-reduction"),
            mk(["vector", [["chain", [wmed, ["moment"]]], ["trend", 1]]], [es, ns], [d1, d2], [w1, w1[::-1]], q, "corpus-weights-into-unweighted-reduction")]
+    import random
+    r32 = random.Random(32)
+    cs += [mk_f32(r32, es, ns, q) for _ in range(3)]
     return cs
 
 
@@ -260,7 +263,20 @@ def generate(rng, tier):
             q = [q[0] + es[:6], q[1] + ns[:6]]
             tag = "-nan-data"
         cs.append(mk(spec, [es, ns], data, weights, q, spec[0] + ("-2comp" if ncomp == 2 else "") + ("-intdata" if intdata else "") + tag))
+        if rng.random() < 0.06:
+            cs.append(mk_f32(rng, es, ns, q))
     return cs
+
+
+def mk_f32(rng, es, ns, q):
+    """Readings kept in single precision (a float32 grid file, a sensor log): neighbours first (their mean stays float32), then a trend or spline
+    on what is left (double precision).  Values are even integers below 2^15, so the float32 arithmetic of the first step is exact.
+    Outside the exact model (its steps are rational): composite versus its parts, by the oracle."""
+    d = [float(2 * rng.randint(2000, 16000)) for _ in es]
+    spec = ["chain", [["knn", 2, "mean"], rng.choice([["trend", 1], ["trend", 2], ["spline", None, 0.0]])]]
+    c = mk(spec, [es, ns], [d], None, q, "chain-f32data")
+    c["op"], c["key"] = "power_comb 0", repr((spec, es, ns, d, "f32"))
+    return c
 
 
 def _shape(data):
@@ -268,6 +284,9 @@ def _shape(data):
     import zlib
     n = len(data[0])
     return [2, n // 2] if (n % 2 == 0 and n >= 4 and zlib.crc32(repr(data[0][:4]).encode()) % 3 == 0) else [n]
+
+
+_F32 = [False]      # set per case (impl / compare / oracle): kinds ending in "-f32data" hand their data over in single precision
 
 
 def _args(coords, data, weights):
@@ -278,6 +297,8 @@ def _args(coords, data, weights):
     if all(v == v and float(v).is_integer() for d in data for v in d):
         # integer-valued data are handed over with an integer dtype (elevations, counts): composition must not depend on it
         ds = tuple(np.asarray(d).astype("int64" if (len(data[0]) + i) % 2 else "int32") for i, d in enumerate(ds))
+    if _F32[0]:
+        ds = tuple(np.asarray(d).astype("float32") for d in ds)      # (chosen so that every value and every pairwise mean is exact in float32)
     ws = None if weights is None else tuple(C.mkarr(w, shp, f"{key}w{i}") for i, w in enumerate(weights))
     return cs, (ds[0] if len(ds) == 1 else ds), (None if ws is None else (ws[0] if len(ws) == 1 else ws))
 
@@ -294,6 +315,7 @@ def _tolist(x):
 
 def impl(case):
     spec, coords, data, weights, q = case["args"]
+    _F32[0] = case["kind"].endswith("-f32data")
 
     def run():
         with warnings.catch_warnings():
@@ -358,6 +380,7 @@ def _near_tie(spec, coords, data=None, weights=None, q=None):
 
 
 def compare(case, io, mo):
+    _F32[0] = case["kind"].endswith("-f32data")
     if case["op"] == "power_comb 0":
         return "diff:implementation failed: " + io[1] if C.is_err(io) else "ok"
     e = C.err_compare(io, mo)
@@ -399,6 +422,7 @@ def _close(a, b, tol=1e-7, scale=None):
 
 def oracle(case, io):
     spec, coords, data, weights, q = case["args"]
+    _F32[0] = case["kind"].endswith("-f32data")
 
     def by_hand(sp, args):
         """The composition threaded by hand through freshly built steps (chains step by step, vectors component by component)."""
@@ -482,7 +506,8 @@ def oracle(case, io):
                 if hasattr(st, "predict"):
                     p = np.array(_tolist(st.predict(cs)))
                     total_d = p if total_d is None else total_d + p
-            if not _close(pred, total) or not _close(pd, total_d):
+            # (single-precision data: the sum is formed in double precision like any other - compared far below float32 resolution)
+            if not _close(pred, total, *((1e-11,) if _F32[0] else ())) or not _close(pd, total_d, *((1e-11,) if _F32[0] else ())):
                 return "chain prediction is not the sum of the predictions of its steps, each fitted on what the previous filter returned"
             # telescoping for the suffix after the last reduction
             last_red = max([i for i, s in enumerate(spec[1]) if s[0].startswith("block")] + [-1])
